@@ -85,7 +85,7 @@ func (db *DB) flush(n int) (mdb *memDB, mdbFree int, err error) {
 		case tLen >= slowdownTrigger && !delayed:
 			delayed = true
 			time.Sleep(time.Millisecond)
-		case mdbFree >= n:
+		case mdbFree >= n && !db.journalFailed:
 			return false
 		case tLen >= pauseTrigger:
 			delayed = true
@@ -98,8 +98,11 @@ func (db *DB) flush(n int) (mdb *memDB, mdbFree int, err error) {
 				return false
 			}
 		default:
-			// Allow memdb to grow if it has no entry.
-			if mdb.Len() == 0 {
+			// Allow memdb to grow if it has no entry. After a failed journal
+			// write the journal writer keeps its error for ever and the file may
+			// end in a partial record, so move on to a fresh journal file first
+			// (recovery drops the partial record at the end of the old one).
+			if mdb.Len() == 0 && !db.journalFailed {
 				mdbFree = n
 			} else {
 				mdb.decref()
@@ -252,6 +255,8 @@ func (db *DB) writeLocked(batch, ourBatch *Batch, merge, sync bool) error {
 		// Consume its sequence numbers so that a later, acknowledged batch can
 		// never collide with it and be skipped by journal recovery.
 		db.addSeq(uint64(batchesLen(batches)))
+		// Do not append to this journal file again: the next write rotates.
+		db.journalFailed = true
 		db.unlockWrite(overflow, merged, err)
 		return err
 	}
